@@ -117,3 +117,18 @@ Theorem C06_unify_keeps_null p k : k < 0 -> unify_code p k = -1.
 Proof. exact (unify_code_null p k). Qed.
 Print Assumptions C06_multi_key_null.
 Print Assumptions C06_unify_keeps_null.
+
+(* Tie B (pins): the functions this property's models transcribe read, statement by statement, as they did when the models
+   were written against them; Gen/SourcesGen.v is regenerated from /repo on every run (translator/pins.py). *)
+From GL Require Import Gen.SourcesGen Model.Sources Proofs.PinC06.
+Theorem C06_modelled_functions_are_the_source's :
+  gen_src_group_by_reduce = src_group_by_reduce /\
+  gen_src_cumulative_reduce = src_cumulative_reduce /\
+  gen_src_rolling_max_or_min_1d = src_rolling_max_or_min_1d /\
+  gen_src_rolling_shift_or_diff_1d = src_rolling_shift_or_diff_1d /\
+  gen_src_ema_grouped = src_ema_grouped /\
+  gen_src_ema_grouped_timed = src_ema_grouped_timed /\
+  gen_src_find_nth = src_find_nth /\
+  gen_src_find_first_or_last_n = src_find_first_or_last_n.
+Proof. exact (conj pin_group_by_reduce (conj pin_cumulative_reduce (conj pin_rolling_max_or_min_1d (conj pin_rolling_shift_or_diff_1d (conj pin_ema_grouped (conj pin_ema_grouped_timed (conj pin_find_nth pin_find_first_or_last_n))))))). Qed.
+Print Assumptions C06_modelled_functions_are_the_source's.
